@@ -10,6 +10,11 @@ def run_case(spec):
     return cvmon.judge_case(spec, do_headers=True)
 
 
+def _frameshift_id(vid):
+    f = vid.split('-')
+    return len(f) == 4 and f[0] == 'INDEL' and (len(f[3]) - len(f[2])) % 3 != 0
+
+
 def classify(b, has_nested):
     """Mechanism id of a known finding explaining header defect b, or None."""
     k = b['kind']
@@ -23,6 +28,9 @@ def classify(b, has_nested):
     ids = b['entry'].split('|')
     if has_nested and any(x.split('_')[0] in ('SE', 'RI', 'A3SS', 'A5SS', 'MXE') for x in ids):
         return 'KF-NESTED'
+    if ids[0].startswith('FUSION-') and any(x.startswith('2-') for x in ids) \
+            and any(_frameshift_id(x[2:]) for x in ids if x.startswith('1-')):
+        return 'KF-FUSION-ACCEPTOR-VAR'     # entry itself names a donor-side frameshift and an acceptor-side record
     if not rep:
         return None
     where = rep.get('where') or {}
